@@ -9,9 +9,7 @@
    No proofs here.  The model describes /repo after the fixes 0fedb86, 222ce93, 2cf0b5a,
    cafb4ab, ff837ac (delete_transactions rebuilds utxo_map from the transactions that are
    still pooled; add_block_transactions_back re-inserts through add_transaction) and the
-   producer-side fixes f62222f, e0300b2, 1214e31, 9879695, ffb4da9 (see bundle_block below; 9879695 --
-   a BlockStake transaction whose inputs are not the node's own is refused on arrival -- is
-   part of the oracle bit [t_ok], which for BlockStake is the whole verdict anyway).
+   producer-side fixes f62222f, e0300b2, 1214e31, 9879695, ffb4da9, bb88717 (see bundle_block below).
 
    Abstraction.  Signatures, utxoset keys and hashes are interned numbers.  A
    transaction carries what the pool reads of it: its signature [t_id] (key of
@@ -20,19 +18,21 @@
    its type, and [t_ok] = the verdict of every check of Transaction::validate
    other than the utxoset lookup (signature, routing path, amounts, type rules;
    for the types whose validate() returns before the lookup -- Fee, SPV,
-   BlockStake -- it is the whole verdict).  The ledger is the list of spendable
-   utxoset keys (entries of Blockchain.utxoset with value true).
+   BlockStake -- it is the whole verdict; the age rule of bb88717 is explicit, see
+   [age_ok]).  The chain state read by validate is [chain]: the list of spendable
+   utxoset keys (entries of Blockchain.utxoset with value true), the id of the latest block
+   and the genesis period.
 
    Hash maps are lists; nothing observable depends on their order: the
    observation sorts, and the only order-dependent code (Block::create
    draining the map) influences only the order of transactions in the block. *)
 From Saito Require Import Base.
 
-Inductive ttype := TNormal | TFee | TGoldenTicket | TBlockStake | TSPV | TATR | TOther.
+Inductive ttype := TNormal | TFee | TGoldenTicket | TBlockStake | TSPV | TATR | TIssuance | TOther.
 
 Definition ttype_code (t : ttype) : N :=
   match t with TNormal => 0 | TFee => 1 | TGoldenTicket => 2 | TBlockStake => 3 | TSPV => 4
-             | TATR => 5 | TOther => 6 end.
+             | TATR => 5 | TIssuance => 6 | TOther => 7 end.
 
 Record tx := mkTx {
   t_id : N;                   (* interned signature *)
@@ -41,6 +41,9 @@ Record tx := mkTx {
   t_type : ttype;
   t_ok : bool;                (* Transaction::validate(.., validate_against_utxo = false) *)
   t_target : N;               (* golden ticket target (GoldenTicket type only) *)
+  t_oldest : option N;        (* smallest block_id among the inputs with amount > 0 whose slip
+                                 type is not Bound (None: no such input) *)
+  t_own : bool;               (* every input slip carries the node's own public key *)
 }.
 
 Record pool := mkP {
@@ -77,21 +80,37 @@ Definition del_gt (target : N) (g : list (N * N)) : list (N * N) :=
 Definition wadd (a b : N) : N := (a + b) mod 2 ^ 64.
 
 (* ---- Slip::validate / Transaction::validate_against_utxoset / Transaction::validate ---- *)
-Definition slip_valid (ledger : list N) (i : N * N) : bool :=
-  if 0 <? snd i then mem (fst i) ledger else true.
+(* what Transaction::validate reads of the chain: the spendable utxoset keys, the id of the
+   latest block and the genesis period *)
+Record chain := mkC { c_keys : list N; c_latest : N; c_gp : N }.
 
-Definition valid_against (ledger : list N) (t : tx) : bool :=
+Definition slip_valid (ledger : chain) (i : N * N) : bool :=
+  if 0 <? snd i then mem (fst i) (c_keys ledger) else true.
+
+Definition valid_against (ledger : chain) (t : tx) : bool :=
   match t_type t with
   | TFee => true
   | _ => forallb (slip_valid ledger) (t_inputs t)
   end.
 
-(* validate(utxoset, blockchain, true): Fee, SPV and BlockStake return before the lookup *)
-Definition tx_validate (ledger : list N) (t : tx) : bool :=
+(* bb88717: an input with amount > 0 (not of Bound type) must satisfy
+   block_id + genesis_period >= latest_block_id + 1 *)
+Definition age_ok (ledger : chain) (t : tx) : bool :=
+  match t_oldest t with
+  | Some e => c_latest ledger + 1 <=? e + c_gp ledger
+  | None => true
+  end.
+
+(* validate(utxoset, blockchain, true): Fee and SPV return before the age rule and the lookup;
+   rebroadcast and issuance transactions skip the user-transaction section with the age rule;
+   BlockStake transactions run their own checks (part of t_ok) and then, since 4119a69, the
+   user-transaction section like Normal ones *)
+Definition tx_validate (ledger : chain) (t : tx) : bool :=
   t_ok t &&
   match t_type t with
-  | TFee | TSPV | TBlockStake => true
-  | _ => valid_against ledger t
+  | TFee | TSPV => true
+  | TATR | TIssuance => valid_against ledger t
+  | _ => age_ok ledger t && valid_against ledger t
   end.
 
 (* ---- Mempool::add_transaction ---- *)
@@ -117,8 +136,14 @@ Definition add_transaction (p : pool) (t : tx) : res pool :=
 Definition producer_only (t : tx) : bool :=
   match t_type t with TFee | TATR | TSPV => true | _ => false end.
 
-Definition add_transaction_if_validates (ledger : list N) (p : pool) (t : tx) : res pool :=
+(* the staking transaction of a block is built by its producer from its own wallet: a
+   BlockStake transaction with an input of another key is not taken (9879695) *)
+Definition foreign_stake (t : tx) : bool :=
+  match t_type t with TBlockStake => negb (t_own t) | _ => false end.
+
+Definition add_transaction_if_validates (ledger : chain) (p : pool) (t : tx) : res pool :=
   if producer_only t then Ok p
+  else if foreign_stake t then Ok p
   else if tx_validate ledger t then add_transaction p t else Ok p.
 
 (* ---- Mempool::add_golden_ticket (solution not checked; keyed by target) ---- *)
@@ -152,7 +177,7 @@ Definition delete_block (p : pool) (block_hash : N) : pool :=
 
 (* ---- Blockchain::remove_block_transactions (called by add_block_success, also for
         blocks that did not become part of the longest chain) ---- *)
-Definition remove_block_transactions (ledger : list N) (p : pool) (btxs : list tx) : pool :=
+Definition remove_block_transactions (ledger : chain) (p : pool) (btxs : list tx) : pool :=
   delete_transactions (set_txs p (filter (valid_against ledger) (txs p))) btxs.
 
 (* ---- Blockchain::add_block_failure = delete_block + add_block_transactions_back:
@@ -160,7 +185,7 @@ Definition remove_block_transactions (ledger : list N) (p : pool) (btxs : list t
         Mempool::add_transaction one by one (reservation check, reservations, work cache) ---- *)
 Definition is_normal (t : tx) : bool := match t_type t with TNormal => true | _ => false end.
 
-Definition back_txs (ledger : list N) (btxs : list tx) : list tx :=
+Definition back_txs (ledger : chain) (btxs : list tx) : list tx :=
   filter (fun t => is_normal t && tx_validate ledger t) btxs.
 
 Fixpoint add_all (p : pool) (l : list tx) : res pool :=
@@ -169,13 +194,13 @@ Fixpoint add_all (p : pool) (l : list tx) : res pool :=
   | t :: r => do p1 <- add_transaction p t; add_all p1 r
   end.
 
-Definition add_block_transactions_back (ledger : list N) (p : pool) (mine : bool) (btxs : list tx) : res pool :=
+Definition add_block_transactions_back (ledger : chain) (p : pool) (mine : bool) (btxs : list tx) : res pool :=
   if mine then
     do p1 <- add_all p (back_txs ledger btxs);
     Ok (mkP (txs p1) (umap p1) (work p1) true (gts p1))
   else Ok p.
 
-Definition add_block_failure (ledger : list N) (p : pool) (block_hash : N) (mine : bool) (btxs : list tx) : res pool :=
+Definition add_block_failure (ledger : chain) (p : pool) (block_hash : N) (mine : bool) (btxs : list tx) : res pool :=
   add_block_transactions_back ledger (delete_block p block_hash) mine btxs.
 
 (* ---- Mempool::can_bundle_block.  [env_ok] collects the conditions that do not read
@@ -226,7 +251,7 @@ Definition drop_bad_gt (p : pool) (bad_gt : option N) : pool :=
   | None => p
   end.
 
-Definition bundle_core (ledger : list N) (p : pool) (env_ok : bool) (work_needed : N)
+Definition bundle_core (ledger : chain) (p : pool) (env_ok : bool) (work_needed : N)
            (stake : option tx) (extra : list tx) : res (pool * option (list tx)) :=
   if negb (can_bundle_block p env_ok work_needed) then Ok (p, None) else
   match stake with
@@ -242,14 +267,14 @@ Definition bundle_core (ledger : list N) (p : pool) (env_ok : bool) (work_needed
         Ok (rebuild_utxo_map (mkP [] (umap p1) 0 false (gts p1)), Some block)
   end.
 
-Definition bundle_block (ledger : list N) (p : pool) (ts_ok : bool) (bad_gt : option N)
+Definition bundle_block (ledger : chain) (p : pool) (ts_ok : bool) (bad_gt : option N)
            (env_ok : bool) (work_needed : N) (stake : option tx) (extra : list tx)
   : res (pool * option (list tx)) :=
   if negb ts_ok then Ok (p, None)
   else bundle_core ledger (drop_bad_gt p bad_gt) env_ok work_needed stake extra.
 
 (* Block::create returned Err (double spend among what is left after the leaving-out) *)
-Definition create_fails (ledger : list N) (p : pool) (env_ok : bool) (work_needed : N)
+Definition create_fails (ledger : chain) (p : pool) (env_ok : bool) (work_needed : N)
            (stake : option tx) (extra : list tx) : bool :=
   can_bundle_block p env_ok work_needed &&
   match stake with
@@ -261,18 +286,20 @@ Definition create_fails (ledger : list N) (p : pool) (env_ok : bool) (work_neede
   end.
 
 (* ---- system state and operations ---- *)
-Record state := mkS { pl : pool; ledger : list N }.
+Record state := mkS { pl : pool; ledger : chain }.
 
-Definition init (genesis_ledger : list N) : state := mkS empty_pool genesis_ledger.
+Definition init (genesis : chain) : state := mkS empty_pool genesis.
 
 Inductive op :=
 | OAddTx (t : tx)                          (* add_transaction_if_validates *)
 | OAddGT (target id : N)                   (* add_golden_ticket *)
 | OBundle (ts_ok : bool) (bad_gt : option N) (env_ok : bool) (work_needed : N)
           (stake : option tx) (extra : list tx)
-| OBlockAdded (ledger' : list N) (btxs : list tx)
-    (* add_block_success on a block with transactions btxs; ledger' = spendable set
-       afterwards (unchanged for an off-chain block, arbitrary after a reorganisation) *)
+| OBlockAdded (keys' : list N) (latest' : N) (btxs : list tx)
+    (* add_block_success on a block with transactions btxs; keys' = spendable set and
+       latest' = id of the latest block afterwards (unchanged for an off-chain block,
+       arbitrary after a reorganisation).  The retain of remove_block_transactions looks
+       the inputs up in the utxoset only: it does not apply the age rule. *)
 | OBlockFailed (block_hash : N) (mine : bool) (btxs : list tx).
     (* add_block_failure; mine = (block.creator == wallet.public_key) *)
 
@@ -284,7 +311,9 @@ Definition step (s : state) (o : op) : res (state * option (list tx)) :=
   | OBundle ts bg env wn stake extra =>
       do r <- bundle_block (ledger s) (pl s) ts bg env wn stake extra;
       Ok (mkS (fst r) (ledger s), snd r)
-  | OBlockAdded l btxs => Ok (mkS (remove_block_transactions l (pl s) btxs) l, None)
+  | OBlockAdded k n btxs =>
+      let c := mkC k n (c_gp (ledger s)) in
+      Ok (mkS (remove_block_transactions c (pl s) btxs) c, None)
   | OBlockFailed h mine btxs =>
       do p <- add_block_failure (ledger s) (pl s) h mine btxs; Ok (mkS p (ledger s), None)
   end.
@@ -321,7 +350,7 @@ Fixpoint no_shared_input (l : list tx) : bool :=
   | t :: r => forallb (fun u => disjointb (vkeys t) (vkeys u)) r && no_shared_input r
   end.
 Definition I1b (p : pool) : bool := no_shared_input (txs p).
-Definition I2b (l : list N) (p : pool) : bool := forallb (valid_against l) (txs p).
+Definition I2b (l : chain) (p : pool) : bool := forallb (valid_against l) (txs p).
 Definition I3b (p : pool) : bool := forallb (fun k => mem k (block_keys (txs p))) (umap p).
 Definition I5b (p : pool) : bool := work p =? sum_work (txs p).
 
